@@ -92,12 +92,13 @@ claim('C08', 'exploration',
 
 claim('C11', 'exploration',
       'Exhaustive product of {no magic, 1.1, 1.0, 2.0, 2.0 on line 2, 2.0 after a blank} x {BOM, none} x prefer_cif2 in '
-      '{-5,-1,0,1,19,20,99} x {UTF-8, UTF-16LE/BE, UTF-32LE/BE, named 8-bit default, signature-less UTF-16 default} x '
-      'force_default_encoding x {ASCII, non-ASCII} probe (2352 cells) plus seven BOM-position cases.  The dialect is '
+      '{-5,-1,0,1,19,20,99} x {UTF-8, UTF-16LE/BE, UTF-32LE/BE, six named 8-bit defaults (ISO-8859-1, windows-1252, '
+      'ISO-8859-15, KOI8-R, US-ASCII, macintosh), signature-less UTF-16 default} x '
+      'force_default_encoding x {ASCII, non-ASCII} probe (3696 cells) plus seven BOM-position cases.  The dialect is '
       'observed with an error-free probe that reads differently (line-folded text field); dialect, decoded content, '
       'presence / absence of CIF_WRONG_ENCODING and absence of other errors are judged by a decision function '
       'transcribed from the statement.',
-      'Cells in which the documented decision picks an encoding the bytes are not in (1365 of 2352, e.g. signature-less '
+      'Cells in which the documented decision picks an encoding the bytes are not in (2100 of 3696, e.g. signature-less '
       'UTF-16, forced default over UTF-16 bytes) are executed for memory safety only and reported as undetermined.',
       'runtime monitoring: exhaustive configuration-matrix enumeration against a transcribed decision function',
       'DESIGN.md section 4, C11')
